@@ -163,7 +163,30 @@ func (o *byteOrigin) rawServer(t *testing.T) (addr string, stop func()) {
 						if c.Framing == "http10" {
 							proto = "HTTP/1.0"
 						}
-						fmt.Fprintf(conn, "%s 304 Not Modified\r\nCache-Control: max-age=700\r\nEtag: %s\r\nX-Fresh: 1\r\n\r\n", proto, req.Header.Get("If-None-Match"))
+						// ... and, for every other case, hop-by-hop fields of its own: what its Connection field names is hop-by-hop in
+						// THIS message — also when the stored response carries a field of that name end to end, which stays
+						hop := ""
+						sum := 0
+						for i := 0; i < len(c.Name); i++ {
+							sum += int(c.Name[i])
+						}
+						if sum%2 == 0 {
+							named := "X-Hop-304"
+							for _, h := range c.Hdrs {
+								switch strings.ToLower(h[0]) {
+								case "etag", "cache-control", "date", "content-type", "content-length", "age", "vary", "expires", "last-modified":
+								default:
+									if !isHopName(http.CanonicalHeaderKey(h[0]), nil) {
+										named += ", " + h[0]
+									}
+								}
+								if named != "X-Hop-304" {
+									break
+								}
+							}
+							hop = "Connection: " + named + "\r\nX-Hop-304: 1\r\nKeep-Alive: timeout=5\r\nProxy-Authenticate: Basic\r\n"
+						}
+						fmt.Fprintf(conn, "%s 304 Not Modified\r\nCache-Control: max-age=700\r\nEtag: %s\r\nX-Fresh: 1\r\n%s\r\n", proto, req.Header.Get("If-None-Match"), hop)
 						if c.Framing == "close" || c.Framing == "http10" {
 							return
 						}
